@@ -160,6 +160,13 @@ def _build_func_identifier(func):
 # source code to check if a function definition has changed
 _FUNCTION_HASHES = weakref.WeakKeyDictionary()
 
+# For each (store location, function identifier), the hash of the function
+# that last stored its source code there from this process. Several live
+# functions can share one identifier (same name, different code): only the
+# last one to store its code can rely on _FUNCTION_HASHES to skip the
+# comparison with the stored source code.
+_FUNCTION_CODE_WRITERS = dict()
+
 
 ###############################################################################
 # class `MemorizedResult`
@@ -679,9 +686,14 @@ class MemorizedFunc(Logger):
             func_hash = self._hash_func()
             try:
                 _FUNCTION_HASHES[self.func] = func_hash
+                _FUNCTION_CODE_WRITERS[self._func_code_key()] = func_hash
             except TypeError:
                 # Some callable are not hashable
                 pass
+
+    def _func_code_key(self):
+        """Identify where the source code of self.func is stored."""
+        return getattr(self.store_backend, "location", None), self.func_id
 
     def _check_previous_func_code(self, stacklevel=2):
         """
@@ -698,7 +710,11 @@ class MemorizedFunc(Logger):
                 # hash. This is more likely to falsely change than have hash
                 # collisions, thus we are on the safe side.
                 func_hash = self._hash_func()
-                if func_hash == _FUNCTION_HASHES[self.func]:
+                if (
+                    func_hash == _FUNCTION_HASHES[self.func]
+                    and func_hash
+                    == _FUNCTION_CODE_WRITERS.get(self._func_code_key())
+                ):
                     return True
         except TypeError:
             # Some callables are not hashable
@@ -1140,6 +1156,7 @@ class Memory(Logger):
             # table, results cached after this clear will be have cache miss
             # as the function code is not re-written.
             _FUNCTION_HASHES.clear()
+            _FUNCTION_CODE_WRITERS.clear()
 
     def reduce_size(self, bytes_limit=None, items_limit=None, age_limit=None):
         """Remove cache elements to make the cache fit its limits.
